@@ -36,6 +36,21 @@ var builtinTypes = func() map[string]string {
 	return m
 }()
 
+// the ids GenerateTOC/AutoGenerateTOC give their entries ("toc 1".."toc 9" and the TOC heading); registered by NewStyleManager
+var tocIDs = []string{"12", "13", "14", "15", "16", "17", "18", "19", "20", "21"}
+
+// based-on relations among the predefined styles (pkg/style): everything paragraph-like derives from Normal, Table Grid from Normal Table
+var predefinedBase = func() map[string]string {
+	m := map[string]string{"Title": "Normal", "Subtitle": "Normal", "ListParagraph": "Normal", "Quote": "Normal", "CodeBlock": "Normal", "ab": "a1"}
+	for i := 1; i <= 9; i++ {
+		m[fmt.Sprintf("Heading%d", i)] = "Normal"
+	}
+	for _, id := range tocIDs {
+		m[id] = "Normal"
+	}
+	return m
+}()
+
 // model is the harness's own bookkeeping for the current document object. It never looks at library state.
 type model struct {
 	saved  bool // the current document object has been saved at least once, or was opened from a package
@@ -49,6 +64,9 @@ type model struct {
 	// what the package the document was opened from contained when the process-wide registries were last reset
 	preNum, preFn, preEn map[string]bool
 	preStyles            map[string]bool // style ids of the package the document object was opened from (nil = not opened)
+
+	base    map[string]string // id -> based-on id, for every style the caller knows about
+	removed map[string]bool   // predefined ids removed through RemoveStyle and not re-created since
 
 	lists, fns, ens   int
 	listAfterOpen     bool
@@ -75,6 +93,11 @@ func (m *model) newDoc() {
 	m.want = map[string]map[string]string{}
 	m.late = map[string]bool{}
 	m.used = map[string]bool{}
+	m.removed = map[string]bool{}
+	m.base = map[string]string{}
+	for k, v := range predefinedBase {
+		m.base[k] = v
+	}
 	m.preNum, m.preFn, m.preEn, m.preStyles = nil, nil, nil, nil
 }
 
@@ -84,14 +107,25 @@ func (m *model) openedFrom(o *obs, fresh bool) {
 	m.reg = map[string]string{}
 	m.preStyles = map[string]bool{}
 	if o != nil {
+		m.base = map[string]string{}
 		for id, d := range o.Styles {
 			m.reg[id] = d.Type
 			m.preStyles[id] = true
+			if b, ok := d.Fields["basedOn"]; ok {
+				m.base[id] = b
+			}
+		}
+		// whatever the body of the package refers to is in use
+		for _, r := range o.Refs {
+			m.used[r.Val] = true
 		}
 	}
 	// what the registry of the old object knew is gone; the statement promises presence in the next save only
 	m.want = map[string]map[string]string{}
-	if fresh {
+	// every opened document starts with empty note/numbering registries of its own (they are per document),
+	// whether or not the process is the one that wrote the package
+	_ = fresh
+	{
 		// accumulated over successive opens: a definition lost after an earlier open stays lost
 		if m.preNum == nil {
 			m.preNum, m.preFn, m.preEn = map[string]bool{}, map[string]bool{}, map[string]bool{}
@@ -110,6 +144,16 @@ func (m *model) openedFrom(o *obs, fresh bool) {
 	}
 }
 
+// isBase: some style the caller knows about is based on id.
+func (m *model) isBase(id string) bool {
+	for other, b := range m.base {
+		if other != id && b == id {
+			return true
+		}
+	}
+	return false
+}
+
 func (m *model) idsOfType(typ string) []string {
 	var out []string
 	for id, t := range m.reg {
@@ -122,9 +166,11 @@ func (m *model) idsOfType(typ string) []string {
 }
 
 func (m *model) touched(id string) {
-	if m.saved {
+	// the styles part of an opened document is kept verbatim (open finding); a generated one is rewritten by every save
+	if m.opened {
 		m.late[id] = true
 	}
+	delete(m.removed, id)
 	m.sinceSave = true
 	if m.opened {
 		m.extendAfterOpen = true
